@@ -264,9 +264,13 @@ def sym_string_lemmas(vc):
 def nat_sort(h):
     import decimal
     from dataflows import Flow, sort_rows
-    for _ in range(h.n(40, 400)):
+    for case in range(h.n(40, 400)):
         kind = h.rng.choice(['float', 'int', 'decimal', 'mixed', 'text', 'two-fields'])
         n = h.rng.choice([0, 1, 2, 5, 12]) if h.tier == 'quick' or h.rng.random() < 0.9 else 10300
+        if case < 2:
+            # two tables beyond the in-memory cache of the key/value file (10240 entries), ascending and descending, in
+            # every run: the spill-to-disk path of the index is part of the property's quantifier
+            n, kind = 10300, ('int' if case == 0 else 'float')
         fl = [0.0, 1.5, -1.5, 2.0, -2.0, 1e300, -1e300, 1e-300, -1e-300, 3.25, -0.5, 100.0, -100.0, 7.0, -3e231, -1.7e308, -1e250,
               1.7e308, 5e-324, -5e-324, -0.0]
         if kind == 'float':
@@ -291,6 +295,8 @@ def nat_sort(h):
             key = h.rng.choice(['{k}', ['k']]) if kind != 'text' else '{k}'
             want = sorted(rows, key=lambda r: (r['k'], r['i']))
         reverse = h.rng.random() < 0.4
+        if case < 2:
+            reverse = case == 0
         bs = h.rng.choice([1, 2, 1000])
         got = h.run(lambda: Flow([dict(r) for r in rows], sort_rows(key, reverse=reverse, batch_size=bs)).results(on_error=None)[0])
         exp = list(reversed(want)) if reverse else want
